@@ -135,6 +135,12 @@ func strip(v ssa.Value) ssa.Value {
 			v = x.X
 		case *ssa.ChangeInterface:
 			v = x.X
+		case *ssa.Phi:
+			// a phi with a single incoming edge (left behind by the helper inliner's jump threading) is its operand
+			if len(x.Edges) != 1 || x.Edges[0] == ssa.Value(x) {
+				return v
+			}
+			v = x.Edges[0]
 		case *ssa.UnOp:
 			if x.Op != token.MUL {
 				return v
